@@ -32,6 +32,7 @@ import (
 
 type Clause struct {
 	Derived bool // established by a meta-step (lane + meaning lemma), not re-proved at return
+	Optional bool // invariant?: skipped when it mentions an unknown identifier
 	Text string
 	Expr ast.Expr
 	By   []ast.Expr
@@ -311,11 +312,14 @@ func handleLine(cur **Contract, out *[]*Contract, pkgPath, text, line string) er
 		}
 		body := strings.TrimSpace(rest[strings.Index(rest, f[1])+len(f[1]):])
 		switch f[1] {
-		case "invariant":
+		case "invariant", "invariant?":
 			cl, err := parseClause(body, line)
 			if err != nil {
 				return err
 			}
+			// invariant?: an auxiliary invariant about a local that a refactoring may remove: it is
+			// skipped (neither assumed nor owed) when it mentions an identifier that does not exist
+			cl.Optional = f[1] == "invariant?"
 			ls.Inv = append(ls.Inv, cl)
 		case "decreases":
 			cl, err := parseClause(body, line)
